@@ -44,6 +44,31 @@ def mapMOutcome {α β} (f : α → Outcome β) : List α → Outcome (List β)
     let bs ← mapMOutcome f as
     pure (b :: bs)
 
+/-! ### wallet.PayloadHighload as a dictionary: message i ↦ key i (uint16), value `mode:uint8 message:^MessageRelaxed` -/
+def hlItems : Nat → Val → Option (List Val × List Val)
+  | _, .nil => some ([], [])
+  | i, .cons (.cons (.cons (.cell c) .nil) (.cons (.int mode) .nil)) rest =>
+    if 0 ≤ mode ∧ mode < 256 then
+      (hlItems (i + 1) rest).map fun r => (.int i :: r.1, .cell (.mk 0 0 (Bits.natToBits 8 mode.toNat) [c]) :: r.2)
+    else none
+  | _, _ => none
+
+/-- the dictionary value (`dictVal`) PayloadHighload.MarshalTLB hands to HashmapE[Uint16, Any] -/
+def hlToDict (v : Val) : Option Val :=
+  (hlItems 0 v).map fun r => dictVal r.1 r.2
+
+/-- PayloadHighload.UnmarshalTLB: every value of the dictionary read back as (mode, ^message), in key order -/
+def hlFromValues : List Val → Option Val
+  | [] => some .nil
+  | .cell (.mk _ _ bits refs) :: rest =>
+    if bits.length < 8 then none
+    else match refs with
+      | [] => none
+      | c :: _ =>
+        (hlFromValues rest).map fun r =>
+          .cons (.cons (.cons (.cell c) .nil) (.cons (.int (Bits.bitsToNat (bits.take 8))) .nil)) r
+  | _ => none
+
 namespace Prim
 
 /-! ### VarUInteger n -/
